@@ -700,7 +700,15 @@ class Machine(object):
             nstmt = self.lines[li][1][si]
             if k + 1 < len(nstmt[1]):
                 self.notes.add('zero-trip-for-into-next-list')
-                return self.do_next(nstmt, npc, k + 1, self.after(npc))
+                try:
+                    return self.do_next(nstmt, npc, k + 1, self.after(npc))
+                except _BasicError as e:
+                    # the rest of the list is executed where it stands: an error in it is
+                    # reported in the line of that NEXT (GW keeps the current line up to
+                    # date while it scans for the NEXT), not in the line of the skipped FOR
+                    if e.line is None:
+                        e.line = self.lineno(npc)
+                    raise
             return self.after(npc)
         self.for_stack.append((fid, var, stop, step))
         return nxt
